@@ -2,10 +2,13 @@ package otap
 
 import (
 	"fmt"
+	"sort"
 	"strings"
 	"testing"
 
 	"pgregory.net/rapid"
+
+	colarspb "github.com/open-telemetry/otel-arrow/api/experimental/arrow/v1"
 
 	"verif/kit"
 	"verif/otap/gen"
@@ -76,6 +79,47 @@ func genOptions(t *rapid.T, rec *kit.Recorder) Options {
 	return o
 }
 
+var dumpTypes = []string{"HISTOGRAM_DATA_POINTS", "SPANS", "LOGS", "UNIVARIATE_METRICS", "EXP_HISTOGRAM_DATA_POINTS", "SUMMARY_DATA_POINTS", "SPAN_ATTRS", "NUMBER_DP_EXEMPLARS", "RESOURCE_ATTRS", "SPAN_EVENTS", "NO_SUCH_TYPE"}
+
+// genExtraOptions adds the remaining public options of pkg/config - the
+// initial dictionary index width and, when stats is set, the statistics /
+// dump options - for the properties that quantify over ALL producer options.
+func genExtraOptions(t *rapid.T, o *Options, stats bool) {
+	if pct(t, "initdict", 12) {
+		o.InitDict = rapid.SampledFrom([]string{"u16", "u8", "u32", "u64"}).Draw(t, "initdictv")
+	}
+	if stats && pct(t, "stats", 4) {
+		all := []string{"record", "schema", "updates", "producer", "compression"}
+		for _, st := range all {
+			if rapid.Bool().Draw(t, "stat") {
+				o.Stats = append(o.Stats, st)
+			}
+		}
+		if rapid.Bool().Draw(t, "dump") {
+			// (dumps need the record statistics to be on)
+			if len(o.Stats) == 0 || o.Stats[0] != "record" {
+				o.Stats = append([]string{"record"}, o.Stats...)
+			}
+			if rapid.Bool().Draw(t, "dumpall") {
+				// "dump everything": every payload type, 50 rows
+				var names []string
+				for _, name := range colarspb.ArrowPayloadType_name {
+					names = append(names, name)
+				}
+				sort.Strings(names)
+				for _, name := range names {
+					o.Stats = append(o.Stats, "dump:"+name+":50")
+				}
+			} else {
+				n := rapid.IntRange(1, 3).Draw(t, "ndump")
+				for i := 0; i < n; i++ {
+					o.Stats = append(o.Stats, fmt.Sprintf("dump:%s:%d", rapid.SampledFrom(dumpTypes).Draw(t, "dumptype"), rapid.SampledFrom([]int{1, 3, 50, 0}).Draw(t, "dumprows")))
+				}
+			}
+		}
+	}
+}
+
 // historyPlan selects what genOptionHistory builds.
 type historyPlan struct {
 	MinBatches, MaxBatches int
@@ -142,6 +186,15 @@ func optionLabels(o Options) []string {
 	}
 	if o.Zstd != nil {
 		ls = append(ls, fmt.Sprintf("zstd=%v", *o.Zstd))
+	}
+	if o.InitDict != "" {
+		ls = append(ls, "init_dict="+o.InitDict)
+	}
+	for _, st := range o.Stats {
+		if strings.HasPrefix(st, "dump:") {
+			st = "dump"
+		}
+		ls = append(ls, "stats:"+st)
 	}
 	if o.OrderSpanBy != nil {
 		ls = append(ls, fmt.Sprintf("span_order=%d", *o.OrderSpanBy))
